@@ -99,6 +99,22 @@ def check_C06(ctx):
             hr = agg(("adt", HRANK, 0), [C(5, "u16") if f == "value" else (ctx.enum_val(HNAME, nv["name"]) if f == "name" else ctx.enum_val(HCLASS, "Invalid")) for f in fields])
             b = ctx.summ(ki, [("r", hr)]).ret
             rep.ob("C06.is_invalid", nv["name"], cval(b) == (1 if nv["name"] == "Invalid" else 0), "is_invalid() on a rank named %s gives %s" % (nv["name"], cval(b)), pdb.where(ki))
+        # ... and on every converted rank: is_invalid(from(v)) exactly when the name of v is Invalid
+        bi = ctx.summ(ki, [("r", r)])
+        from .cards import total_over_scalar as _tos
+        _tos(ctx, "C06.no-panic.is_invalid", bi, "v", "u16", [0, 1, 7462, 7463, 7464, 32768, 65535])
+        inv_ix = next(x["discr"] for x in pdb.adt(HNAME)["variants"] if x["name"] == "Invalid")
+        badi = None
+        try:
+            cells_i, _n = cell_table_cmp(pdb, agg(("tuple",), (bi.ret, dn)), "v", "u16")
+            for (lo, hi), val_, ident_ in cells_i:
+                if ident_ or bool(cval(val_[2][0])) != (enum_name(pdb, val_[2][1]) == "Invalid"):
+                    badi = badi if badi is not None else lo
+        except (CellsRefused, Uncertified):
+            for x in range(65536):
+                if bool(cval(ctx.fold(bi.ret, {"v": x}))) != (enum_name(pdb, ctx.fold(dn, {"v": x})) == "Invalid"):
+                    badi = badi if badi is not None else x
+        rep.ob("C06.is_invalid", "every converted rank", badi is None, "HandRank::from(%s).is_invalid() disagrees with its name being Invalid" % badi, pdb.where(ki))
         # self-consistency of every converted rank
         kv = pdb.inherent(HRANK, "is_a_valid_hand_rank")
         smv = ctx.summ(kv, [("r", r)])
